@@ -75,7 +75,12 @@ fn check(c: &Case, ctx: &Ctx) -> Outcome {
             // with or without the .skf suffix
             args.push(["y", "y.skf", "y.2"][(n + k / 2) % 3].into());
         }
-        if c.names_file {
+        if c.names_file && c.refusal == 1 && (n + k) % 3 == 0 {
+            // the unknown name is a line in another character encoding (Latin-1 'Göteborg_7'): it names nobody
+            let mut bytes = names_file_text(&del_names[..del_names.len() - 1], 0).into_bytes();
+            bytes.extend_from_slice(b"G\xf6teborg_7\n");
+            std::fs::write(dir.join("names.txt"), bytes).unwrap();
+        } else if c.names_file {
             std::fs::write(dir.join("names.txt"), names_file_text(&del_names, n + k)).unwrap();
             args.push("-f".into());
             args.push("names.txt".into());
